@@ -51,11 +51,13 @@ def c04_1(ck, prog):
     if not cands:
         raise AnalysisBroken('acquire_service: decision chain not found')
     start = cands[-1][1]
-    names = ('no_owner', 'is_owner', 'DO_NOT_QUEUE', 'REPLACE_EXISTING', 'owner_allows_replacement', 'owner_do_not_queue')
-    for no_owner, is_owner, dnq, rep, ar, odq in itertools.product((0, 1), repeat=6):
+    names = ('no_owner', 'is_owner', 'DO_NOT_QUEUE', 'REPLACE_EXISTING', 'owner_allows_replacement',
+             'owner_do_not_queue', 'requester_ALLOW_REPLACEMENT')
+    for no_owner, is_owner, dnq, rep, ar, odq, my_allow in itertools.product((0, 1), repeat=7):
         if no_owner and is_owner:
             continue
-        flags = (DNQ if dnq else 0) | (REPLACE if rep else 0)
+        # the requester's own ALLOW_REPLACEMENT flag must not influence the decision
+        flags = (DNQ if dnq else 0) | (REPLACE if rep else 0) | (ALLOW if my_allow else 0)
 
         def val(e):
             if e.get('k') == 'bin' and e['op'] == '==' and is_ref(e['l'], 'old_owner_conn'):
@@ -82,7 +84,7 @@ def c04_1(ck, prog):
             if ev is not None and ev['ev'] == 'call' and ev['e'].get('callee') == 'bus_context_get_activation':
                 return 'decided'
             return None
-        a = (no_owner, is_owner, dnq, rep, ar, odq)
+        a = (no_owner, is_owner, dnq, rep, ar, odq, my_allow)
         try:
             evs, why = lib.symbolic_walk(fn, start, val, stop)
         except AnalysisBroken as e:
@@ -104,7 +106,6 @@ def c04_1(ck, prog):
                 if cal == '_dbus_list_unlink' and is_member(strip_addr(ev['e']['args'][0]) or {}, 'owners', 'BusService'):
                     muts.add('dequeue-if-queued')
         want_reply, want_muts = spec_request(no_owner, is_owner, dnq, rep, ar, odq)
-        a = (no_owner, is_owner, dnq, rep, ar, odq)
         key = 'RequestName:%s' % ''.join(map(str, a))
         if why != 'decided':
             r.violation(key, fn.name, S, fn.line, 'decision walk ended with %s for %s' % (why, dict(zip(names, a))))
